@@ -64,14 +64,12 @@ func newKR920Band(repeaterCompatible bool) (Band, error) {
 				5: {Modulation: LoRaModulation, SpreadFactor: 7, Bandwidth: 125, uplink: true, downlink: true},
 			},
 			rx1DataRateTable: map[int][]int{
-				0: {0, 0, 0, 0, 0, 0, 1, 2},
-				1: {1, 0, 0, 0, 0, 0, 2, 3},
-				2: {2, 1, 0, 0, 0, 0, 3, 4},
-				3: {3, 2, 1, 0, 0, 0, 4, 5},
-				4: {4, 3, 2, 1, 0, 0, 5, 5},
-				5: {5, 4, 3, 2, 1, 0, 5, 7},
-				6: {0, 0, 0, 0, 0, 0, 0, 0},
-				7: {7, 5, 5, 4, 3, 2, 7, 7},
+				0: {0, 0, 0, 0, 0, 0},
+				1: {1, 0, 0, 0, 0, 0},
+				2: {2, 1, 0, 0, 0, 0},
+				3: {3, 2, 1, 0, 0, 0},
+				4: {4, 3, 2, 1, 0, 0},
+				5: {5, 4, 3, 2, 1, 0},
 			},
 			txPowerOffsets: []int{
 				0,
